@@ -29,7 +29,7 @@ def do_call(I, e: ast.Call, fr):
             elif o is not None and "mapsplit" in o.meta:
                 args.append(Sym("star", o.meta["mapsplit"]))
             else:
-                args.append(Sym("star", v if not isinstance(v, Ref) else I.sym_of(v)))
+                args.append(I.derive("star", v))       # keeps the provenance of the elements
         else:
             args.append(I.eval(a, fr))
     for k in e.keywords:
@@ -71,7 +71,7 @@ def call_value(I, callee, args, kwargs, e, fr):
             o = I.obj(a)
             if o is not None and o.kind == "circuit":
                 o.term = t_seq(o.term, ("unknown", f"passed to a callee that is not statically known at {where(fr, e)}"))
-        return I.derive("call", callee, *args)
+        return I.derive("call", callee, *args, *kwargs.values())
     raise Unsupported(f"call of {callee!r} at {pyfacts.where(fr.func, e)}")
 
 
@@ -168,6 +168,9 @@ def call_external(I, dotted, args, kwargs, e, fr):
     if name == "QuantumCircuit" and dotted.startswith("qiskit"):
         width = args[0] if args else None
         return I.new_circuit(t_empty(), site=where(fr, e), width=width)
+    if name in ("OrderedDict", "defaultdict", "WeakValueDictionary", "ChainMap", "Counter") and dotted.split(".")[0] in ("collections", "weakref"):
+        o = I.alloc("dict", site=where(fr, e))
+        return Ref(o.oid)
     if name == "QuantumRegister":
         return Sym("qreg", *args)
     if name == "PassManager":
@@ -302,6 +305,13 @@ def call_builtin(I, name, args, kwargs, e, fr):
         return I.iter_elem(a0, fr, e)
     if name == "str" and len(args) == 1 and isinstance(a0, Sym) and a0.tag in ("fstr", "filetext", "field", "part"):
         return a0          # str() of a string is the string
+    if name in ("min", "max") and len(args) == 1 and I.obj(a0) is not None and I.obj(a0).kind in ("list", "tuple"):
+        ao = I.obj(a0)
+        if ao.items:
+            if any(isinstance(x, Ref) for x in ao.items):
+                return Alt(list(ao.items))          # one of the elements (objects keep their identity)
+        elif isinstance(ao.elem, (Ref, Alt)):
+            return ao.elem
     if name in ("int", "float", "bool", "str", "abs", "min", "max", "sum", "any", "all", "round", "repr", "hash", "id", "ord", "chr", "bin", "format", "divmod", "pow"):
         if name in ("int", "bool", "str", "abs") and isinstance(a0, Const) and len(args) == 1:
             try:
@@ -383,6 +393,10 @@ def _base_names(I, cls, depth=0):
 # ---------------------------------------------------------------------------------------------
 def call_method(I, b: Bound, args, kwargs, e, fr):
     recv, name = b.recv, b.name
+    if name == "__new__" and isinstance(recv, ClassV):
+        cls = args[0].cls if args and isinstance(args[0], ClassV) else recv.cls
+        o = I.alloc("record", site=where(fr, e), cls=cls)     # an instance without running __init__
+        return Ref(o.oid)
     if b.func is not None:
         f = b.func
         if isinstance(recv, ClassV):
@@ -527,8 +541,9 @@ def circuit_method(I, recv, o, name, args, kwargs, e, fr):
         I.mutate(o, name, e)
         o.term = t_seq(o.term, ("unknown", f"circuit method {name} at {where(fr, e)}"))
         return Const(None)
-    if name in ("draw", "depth", "count_ops", "size", "width", "qasm", "num_nonlocal_gates", "to_instruction", "to_gate", "decompose"):
-        return Sym("m:" + name, I.sym_of(recv))
+    if name in ("draw", "depth", "count_ops", "size", "width", "qasm", "num_nonlocal_gates", "to_instruction", "to_gate", "decompose",
+                "find_bit", "get_instructions", "num_connected_components", "num_tensor_factors", "has_register", "qubit_duration"):
+        return I.derive("m:" + name, recv, *args)          # queries: the circuit is read, not changed
     o.term = t_seq(o.term, ("unknown", f"circuit method {name} at {where(fr, e)}"))
     return Sym("m:" + name, I.sym_of(recv))
 
